@@ -463,11 +463,51 @@ def delayed_names_rule(ck, prog, rule):
             if nm is None:
                 ck.same(rule, f.where, norm(c)[:100], "the task key of a delayed bound method derives from the object (no name= override)", True)
                 continue
-            has_identity = any(isinstance(x, ast.Call) and norm(x.func).split(".")[-1] in ("id", "tokenize") and any(
-                isinstance(a, ast.Name) and a.id == obj for a in ast.walk(x)) for x in ast.walk(nm))
             ck.same(rule, f.where, norm(c)[:110], "an explicit name= for a delayed bound method contains the object's identity (id(obj) / tokenize(obj)); otherwise "
-                    "two objects called with the same arguments share one task key", has_identity, found=f"name={norm(nm)[:80]}", nontrivial=True)
+                    "two objects called with the same arguments share one task key", _has_identity(nm, obj), found=f"name={norm(nm)[:80]}", nontrivial=True)
+        # the same holds for keys and names given further down the line: D(..., dask_key_name=K) on the delayed bound method and
+        # da.from_delayed(..., name=K) of its result replace keys that would otherwise derive from the object
+        bound = {}
+        for a_ in ast.walk(f.node):
+            if isinstance(a_, ast.Assign) and len(a_.targets) == 1 and isinstance(a_.targets[0], ast.Name) and isinstance(a_.value, ast.Call) \
+                    and norm(a_.value.func).split(".")[-1] == "delayed" and a_.value.args and isinstance(a_.value.args[0], ast.Attribute) \
+                    and isinstance(a_.value.args[0].value, ast.Name):
+                bound[a_.targets[0].id] = a_.value.args[0].value.id
+        if not bound:
+            continue
+        for c in ast.walk(f.node):
+            if not isinstance(c, ast.Call):
+                continue
+            kw = {k.arg: k.value for k in c.keywords if k.arg}
+            if isinstance(c.func, ast.Name) and c.func.id in bound and "dask_key_name" in kw:
+                nm = _resolve_local(f.node, kw["dask_key_name"])
+                ck.same(rule, f.where, norm(c)[:110], "a dask_key_name= given to a delayed bound method contains the object's identity; otherwise two objects "
+                        "called with the same arguments share one task key", _has_identity(nm, bound[c.func.id]), found=f"dask_key_name={norm(nm)[:80]}", nontrivial=True)
+            if norm(c.func).split(".")[-1] == "from_delayed" and "name" in kw:
+                nm = _resolve_local(f.node, kw["name"])
+                obj = next(iter(bound.values()))
+                from_key = any(isinstance(x, ast.Attribute) and x.attr in ("key", "name") for x in ast.walk(nm))
+                ck.same(rule, f.where, norm(c)[:110], "an explicit name= for the array built from a delayed bound method contains the object's identity (or the "
+                        "delayed value's own key); otherwise reads of two objects over the same range collide in one graph",
+                        _has_identity(nm, obj) or from_key, found=f"name={norm(nm)[:80]}", nontrivial=True)
     ck.run.floor(rule, "dask.delayed(<bound method>) sites", n, 1)
+
+
+def _resolve_local(fn, e):
+    if isinstance(e, ast.Name):
+        defs = [s2.value for s2 in ast.walk(fn) if isinstance(s2, ast.Assign) and len(s2.targets) == 1 and isinstance(s2.targets[0], ast.Name) and s2.targets[0].id == e.id]
+        if len(defs) == 1:
+            return defs[0]
+    return e
+
+
+def _has_identity(nm, obj):
+    """id(obj) or tokenize(..., obj, ...) with the object ITSELF as an argument somewhere in the name expression (a token over a
+    few of its attributes - class name, shape, rate - does not identify it)."""
+    for x in ast.walk(nm):
+        if isinstance(x, ast.Call) and norm(x.func).split(".")[-1] in ("id", "tokenize") and any(isinstance(a, ast.Name) and a.id == obj for a in x.args):
+            return True
+    return False
 
 
 def memo_results_untouched(ck, prog, run):
